@@ -26,6 +26,23 @@ type Gen struct {
 	// Blank (1..4): SetPath turns the collection holding the leaf into a single-entry collection with an
 	// empty / whitespace-only key (1, 2) or value (3, 4)
 	Blank int
+	// Pad (1..4): SetPath fills a format-checked string leaf with a VALID value of its format padded with
+	// a blank, a leading blank, a tab or a newline
+	Pad int
+	// NoBad: formatString only returns values that satisfy the format
+	NoBad bool
+}
+
+var pads = []string{" ", " ", "\t", "\n"}
+
+func (g *Gen) padded(format string) string {
+	g.NoBad = true
+	v := g.formatString(format)
+	g.NoBad = false
+	if g.Pad == 2 {
+		return " " + v
+	}
+	return v + pads[(g.Pad-1)%4]
 }
 
 func (g *Gen) chance(num, den int) bool { return g.R.Intn(den) < num }
@@ -176,7 +193,14 @@ var namePool = []string{"p1", "p2", "f1", "f2", "r1", "cb1", "a", "b", "END", "d
 func (g *Gen) name() string { return namePool[g.R.Intn(len(namePool))] }
 
 func (g *Gen) formatString(format string) string {
-	bad := g.chance(1, 12)
+	bad := g.chance(1, 12) && !g.NoBad
+	if !bad && !g.NoBad && g.chance(1, 14) {
+		// a valid value with surrounding white space
+		g.Pad = 1 + g.R.Intn(4)
+		v := g.padded(format)
+		g.Pad = 0
+		return v
+	}
 	switch format {
 	case "duration":
 		if bad {
@@ -801,6 +825,19 @@ func (g *Gen) SetPath(doc map[string]interface{}, t reflect.Type, path []PathSte
 			if ft == nil {
 				return
 			}
+			if last && g.Pad > 0 {
+				bt := ft
+				for bt.Kind() == reflect.Ptr {
+					bt = bt.Elem()
+				}
+				switch {
+				case bt.Kind() == reflect.String && ti.Format != "":
+					m[st.Field] = g.padded(ti.Format)
+				case bt.Kind() == reflect.Slice && bt.Elem().Kind() == reflect.String && strings.HasSuffix(ti.Format, "-array"):
+					m[st.Field] = []interface{}{g.padded(strings.TrimSuffix(ti.Format, "-array"))}
+				}
+				return
+			}
 			if last {
 				m[st.Field] = g.extreme(ft, ti)
 				return
@@ -1046,5 +1083,62 @@ func BlankPlan() []AdvItem {
 func (g *Gen) GenBlankDoc(it AdvItem, variant int) map[string]interface{} {
 	g.Blank = variant
 	defer func() { g.Blank = 0 }()
+	return g.GenAdvDoc(it)
+}
+
+var padPlan []AdvItem
+
+// PadPlan lists the format-checked string leaves (and string lists with an -array format) of all kinds.
+func PadPlan() []AdvItem {
+	if padPlan != nil {
+		return padPlan
+	}
+	for _, it := range AdvPlan() {
+		n := len(it.Path)
+		if n == 0 || it.Path[n-1].Elem {
+			continue
+		}
+		// find the tag of the last field
+		t := SpecType(it.Cat, it.Kind)
+		ok := true
+		var ti TagInfo
+		for _, st := range it.Path {
+			for t.Kind() == reflect.Ptr {
+				t = t.Elem()
+			}
+			if st.Elem {
+				if t.Kind() != reflect.Slice && t.Kind() != reflect.Map && t.Kind() != reflect.Array {
+					ok = false
+					break
+				}
+				t = t.Elem()
+				continue
+			}
+			if t.Kind() != reflect.Struct {
+				ok = false
+				break
+			}
+			found := false
+			for _, f := range Fields(t) {
+				if x := ParseTag(f); x.Name == st.Field {
+					t, ti, found = f.Type, x, true
+				}
+			}
+			if !found {
+				ok = false
+				break
+			}
+		}
+		if ok && ti.Format != "" && ti.Format != "httpcode" && ti.Format != "httpcode-array" {
+			padPlan = append(padPlan, it)
+		}
+	}
+	return padPlan
+}
+
+// GenPadDoc: a valid template whose format-checked leaf holds a valid value with surrounding white space.
+func (g *Gen) GenPadDoc(it AdvItem, variant int) map[string]interface{} {
+	g.Pad = variant
+	defer func() { g.Pad = 0 }()
 	return g.GenAdvDoc(it)
 }
